@@ -3,7 +3,9 @@ import Corerad.Spec.C18
 namespace Driver.C18
 open Corerad Corerad.Model.Monitor
 
-/-- option: `3 addr len onlink auto pref valid` (Prefix Information) or `<type≠3>` (ignored) -/
+/-- option: `3 addr len onlink auto pref valid` (Prefix Information; `len` is the length byte as
+    delivered, 0..255; `addr` is 0 when the decoder left the zero `netip.Addr`, which it does
+    exactly for `len > 128`) or `<type≠3>` (ignored) -/
 def pOpt : P Opt := do
   let c ← P.nat
   if c == 3 then
@@ -21,7 +23,8 @@ def pEvent : P Event := do
            host := h, now := now }
   else pure { msg := .other ty, host := h, now := now }
 
-/-- observed sample: `metric host type addr len value` -/
+/-- observed sample: `metric host type addr len value`; a `prefix` label is `addr len` with
+    `len ≤ 128`, or `0 256` for the literal `invalid Prefix` (`PLabel.ofToks`) -/
 def pSample : P ((Nat × Nat × Nat × Nat × Nat) × Int) := do
   let m ← P.nat; let h ← P.nat; let t ← P.nat; let a ← P.nat; let l ← P.nat; let v ← P.int
   pure ((m, h, t, a, l), v)
@@ -35,13 +38,18 @@ def render (obs : List (Series × Int)) : String :=
 
 def explain (evs : List Event) (obs : List (Series × Int)) : String :=
   if !Spec.C18.uniqueKeys obs then "a label tuple is reported twice"
-  else match obs.find? (fun (s, v) => !(Spec.C18.expected evs s == some v)) with
+  else match obs.find? (fun (s, v) =>
+      if Spec.C18.outOfScope s then !Spec.C18.sentMalformed evs (Spec.C18.seriesHost s)
+      else !(Spec.C18.expected evs s == some v)) with
     | some (s, v) =>
-      match Spec.C18.expected evs s with
+      if Spec.C18.outOfScope s then
+        s!"series [{sampleToks (s, v)}] (label 'invalid Prefix') exists although its router sent no Prefix Information option with a malformed length"
+      else match Spec.C18.expected evs s with
       | some w => s!"series [{sampleToks (s, v)}] should read {w}"
       | none => s!"series [{sampleToks (s, v)}] should not exist"
     | none =>
-      match (Spec.C18.touched evs).find? (fun s => !(Spec.C18.keys obs).contains s) with
+      match (Spec.C18.touched evs).find? (fun s =>
+          !Spec.C18.outOfScope s && !(Spec.C18.keys obs).contains s) with
       | some s => s!"series [{sampleToks (s, 0)}] (value elided) is missing"
       | none => ""
 
